@@ -306,6 +306,13 @@ def run(chk):
             else:
                 chk.violation("C05.unread", w, K.short(w, 60), "deadline + timeout", "lingering read of an unread body is unbounded")
 
+    # ---- C05.flags (T4): who may tell the request loop to stop ---------------------------------------------------------------
+    # `_close` / `_force_close` / `_keepalive` decide whether queued requests are still answered. The parser-error path must go through
+    # the queue (an _ErrInfo entry answered in order by start()); a flag set from data_received() drops the queued entries instead.
+    for attr, allowed in (("_close", {f"{RH}.__init__": "initial state", f"{RH}.close": "graceful close requested by the server (pre_shutdown) or by EOF handling"}),
+                          ("_force_close", {f"{RH}.__init__": "initial state", f"{RH}.force_close": "immediate close", f"{RH}.shutdown": "server shutdown stops keep-alive first"}),
+                          ("_keepalive", {f"{RH}.__init__": "initial state", f"{RH}.keep_alive": "public switch", f"{RH}.start": "taken from the response that was just sent"})):
+        K.owners(chk, "C05.flags", repo, [PROTO], attr, allowed, f"the end-of-life flag {attr} has a closed set of writers", classes=(RH,))
     # ---- C05.consume: bytes handed to a parser are removed from the buffer they came from ----
     WPROTO_BUFFERS = (("RequestHandler.finish_response", "self._parser.feed_data(self._message_tail)"), ("RequestHandler.set_parser", "self._payload_parser.feed_data(self._message_tail)"))
     for q, pat in WPROTO_BUFFERS:
